@@ -1,4 +1,4 @@
-REPO_FIX_COMMITS = ['2d7a94d', '41c6b34', '15c99e7', '0752c0c', '7f84765', 'af57352', 'e33a24d', '5bdc6b3', '08843a4', '3e03bb0', 'd823a64', '3ba8645', '9eda77c', 'f97803c', '7e803d3', '0853a40', '76123e6', '212f09f', '09399f0']
+REPO_FIX_COMMITS = ['2d7a94d', '41c6b34', '15c99e7', '0752c0c', '7f84765', 'af57352', 'e33a24d', '5bdc6b3', '08843a4', '3e03bb0', 'd823a64', '3ba8645', '9eda77c', 'f97803c', '7e803d3', '0853a40', '76123e6', '212f09f', '09399f0', '70a9198', '4fa07f3']
 NOT_APPLICABLE = {}
 CHECKS = {
  'C18': dict(
@@ -157,4 +157,14 @@ CHECKS = {
   note='Either whole-set branch of the sphere is accepted; bundles not enclosed by the reference sphere, afocal image '
        'space, finite-object angular fields and vignetted fields are outside the stated quantifier.',
   design='3/C09'),
+ 'C11': dict(
+  technique='Hypothesis-generated imaging lenses x sampling/grid pairs (both paddings) x defocus/clipping; reference '
+            'model: pupil rebuilt from the sampled wavefront, |DFT|^2 by an independent embedding and by the explicit DFT '
+            'sum, zero-phase MTF bound, analytic circular-pupil MTF, line-spread transform of an independently traced spot',
+  level='Every PSF pixel, the total energy, the Strehl ratio (central value, DC term, <= 1, = 1 for a stigmatic lens), every '
+        'MTF sample (start, range, transform of the PSF, diffraction bound, analytic curve), the frequency axis and cut-off '
+        'and the geometric MTF are compared with the reference model. Counter-example search.',
+  note='Clipped pupils carry the weakened normalisation of C11-clipped-normalisation; frequency axis observed through '
+       'view() under Agg; cut-off not judged for images formed in glass (F-number convention).',
+  design='3/C11'),
 }
